@@ -16,7 +16,7 @@ func init() {
 	register("C09", checkC09)
 	describe("C09", Meta{
 		Technique: "effect/ownership (confinement) analysis on go/ssa with interprocedural write summaries: every store, map update, append/copy and write-assumed external call on the simulation path is traced to the root of the written address (parameter, package-level variable, captured variable, fresh memory), resolving go/ssa's spilled value receivers",
-		Claim:     "Decides the confinement clauses of C09: (R1) every Opcode.Simulate implementation and its callees write only memory reachable from the *VM argument (not through vm.Mach) or fresh memory — never through the process-wide opcode singleton, a package-level variable or the Machine shared by processors; (R2) nothing reachable from the per-tick simulation entry points writes package-level state; (R3) the per-processor worker touches vm.Processors only at its own procId; (R4) between telling the workers to step and collecting their completion messages the coordinator stores nothing into the processors' state; (R5) a loop that receives the workers' completion messages (a channel field several goroutines send on) builds no order-sensitive result (string concatenation, unsorted append) in arrival order. A necessary condition for schedule- and co-simulation-independence; data races inside one VM between the stepping goroutines and the driver, and DelayDistribution randomness, are not decided.",
+		Claim:     "Decides the confinement clauses of C09: (R1) every Opcode.Simulate implementation and its callees write only memory reachable from the *VM argument (not through vm.Mach) or fresh memory — never through the process-wide opcode singleton, a package-level variable or the Machine shared by processors; (R2) nothing reachable from the per-tick simulation entry points writes package-level state; (R3) the per-processor worker touches vm.Processors only at its own procId; (R7) CopyState assigns no map or slice of the source VM to the copy; (R4) between telling the workers to step and collecting their completion messages the coordinator stores nothing into the processors' state; (R5) a loop that receives the workers' completion messages (a channel field several goroutines send on) builds no order-sensitive result (string concatenation, unsorted append) in arrival order. A necessary condition for schedule- and co-simulation-independence; data races inside one VM between the stepping goroutines and the driver, and DelayDistribution randomness, are not decided.",
 		Note:      "Calls through interfaces fan out to every implementation in the module; external (stdlib) methods with pointer receivers are assumed to write their receiver unless on a short read-only list; call results of module functions are mapped through a one-level return summary. Summaries are depth-bounded (8).",
 		DesignRef: "DESIGN.md §2 C09",
 	})
@@ -170,6 +170,9 @@ func checkC09(r *core.Run) {
 
 	// ---- R5: arrival order of the workers' completion messages does not reach the reports
 	c09Arrival(r, prog)
+
+	// ---- R7: a state copy shares no mutable container with its source
+	c09CopyAlias(r, prog)
 
 	// ---- R4: the coordinator does not touch the processors while the workers are stepping them
 	c09Phase(r, prog)
@@ -508,4 +511,77 @@ func c09Phase(r *core.Run, prog *core.Program) {
 		}
 	}
 	r.Count("dispatch_join_functions", n)
+}
+
+
+// c09CopyAlias (C09/COPYALIAS): VM.CopyState makes the checkpoints and what-if copies that
+// simulations compare against and branch from. A map or slice field of the copy that is assigned the
+// source's own map/slice (instead of a fresh one that is then filled) is shared: whatever the live VM
+// — or the copy — inserts later shows up in the other, so a checkpoint follows the run and a what-if
+// copy steers the original. Pointers to the (immutable) machine description and channels are shared by
+// design and not reported.
+func c09CopyAlias(r *core.Run, prog *core.Program) {
+	n := 0
+	for _, rel := range []string{"pkg/procbuilder", "pkg/bondmachine"} {
+		pk := prog.Pkg(rel)
+		if pk == nil {
+			continue
+		}
+		info := pk.TypesInfo
+		core.FuncDecls(pk, func(_ *ast.File, fd *ast.FuncDecl) {
+			if fd.Name.Name != "CopyState" || fd.Recv == nil || len(fd.Recv.List[0].Names) == 0 || len(fd.Type.Params.List) == 0 || len(fd.Type.Params.List[0].Names) == 0 {
+				return
+			}
+			dst := info.ObjectOf(fd.Recv.List[0].Names[0])
+			src := info.ObjectOf(fd.Type.Params.List[0].Names[0])
+			rootIs := func(e ast.Expr, o types.Object) bool {
+				for {
+					switch x := ast.Unparen(e).(type) {
+					case *ast.Ident:
+						return info.ObjectOf(x) == o
+					case *ast.SelectorExpr:
+						e = x.X
+					case *ast.IndexExpr:
+						e = x.X
+					case *ast.SliceExpr:
+						e = x.X
+					case *ast.StarExpr:
+						e = x.X
+					default:
+						return false
+					}
+				}
+			}
+			k := 0
+			bad := 0
+			ast.Inspect(fd.Body, func(m ast.Node) bool {
+				as, ok := m.(*ast.AssignStmt)
+				if !ok || len(as.Lhs) != len(as.Rhs) {
+					return true
+				}
+				for i, l := range as.Lhs {
+					f := core.FieldOf(info, l)
+					if f == nil || !rootIs(l, dst) {
+						continue
+					}
+					switch f.Type().Underlying().(type) {
+					case *types.Map, *types.Slice:
+					default:
+						continue
+					}
+					k++
+					n++
+					if rootIs(as.Rhs[i], src) {
+						bad++
+						r.Violation("C09/COPYALIAS", fmt.Sprintf("C09/COPYALIAS:%s:%s", core.FuncKey(pk, fd), f.Name()), prog.Pos(as.Pos()), fmt.Sprintf("%s assigns the source's own %s to the copy on some path (%s = %s): the two VMs share that container from then on — an entry one of them inserts later (opcode state, a deferred instruction, …) appears in the other, so a checkpoint changes while the live VM runs and a what-if copy influences the simulation it was taken from", core.FuncKey(pk, fd), f.Name(), types.ExprString(l), types.ExprString(as.Rhs[i])))
+					}
+				}
+				return true
+			})
+			if bad == 0 {
+				r.OK("C09/COPYALIAS", "C09/COPYALIAS:"+core.FuncKey(pk, fd), prog.Pos(fd.Pos()), fmt.Sprintf("%d container field(s) of the copy are assigned fresh containers", k))
+			}
+		})
+	}
+	r.Count("copystate_container_assignments", n)
 }
